@@ -1,0 +1,67 @@
+//go:build verif
+
+// Contracts for the deductive verifier in /verif (govc). Comments only.
+
+package pac
+
+// ---- FindProxyForURL result parsing (C05 L5.2, C14 L14.4) ----
+
+// (stringer output; the names are those of the constants)
+//@ ghost fn modeName(Mode) string
+//@ axiom modeName(0) == "DIRECT" && modeName(1) == "PROXY" && modeName(2) == "HTTP" && modeName(3) == "HTTPS" && modeName(4) == "SOCKS" && modeName(5) == "SOCKS4" && modeName(6) == "SOCKS5"
+//@ axiom toLower("HTTP") == "http" && toLower("HTTPS") == "https" && toLower("SOCKS") == "socks" && toLower("SOCKS4") == "socks4" && toLower("SOCKS5") == "socks5"
+//@ func (Mode).String
+//@ trusted
+//@ pure
+//@ ensures 0 <= i && i <= 6 ==> result == modeName(i)
+
+// (package-level constant value, assigned only by the initialiser)
+//@ globalinv noProxy.Mode == 0
+
+// parseMode: the keyword table; anything unrecognised means DIRECT.
+//@ define modeOf(s string) int = ite(s == "PROXY", 1, ite(s == "HTTP", 2, ite(s == "HTTPS", 3, ite(s == "SOCKS", 4, ite(s == "SOCKS4", 5, ite(s == "SOCKS5", 6, 0))))))
+//@ func parseMode
+//@ property C05 C14
+//@ pure
+//@ ensures result == modeOf(s)
+
+// parseProxy: blank or DIRECT is direct; otherwise "<keyword> <host>:<port>" -
+// a missing or unparsable host:port is an error, never a silent fallback.
+//@ func parseProxy
+//@ property C05 C14
+//@ pure
+//@ ensures trimSpace(s) == "" || trimSpace(s) == "DIRECT" ==> result1 == nil && result0.Mode == 0
+//@ ensures trimSpace(s) != "" && trimSpace(s) != "DIRECT" && !cutFound(trimSpace(s), " ") ==> result1 != nil
+//@ ensures trimSpace(s) != "" && trimSpace(s) != "DIRECT" && cutFound(trimSpace(s), " ") && !splitOK(cutAfter(trimSpace(s), " ")) ==> result1 != nil
+//@ ensures trimSpace(s) != "" && trimSpace(s) != "DIRECT" && cutFound(trimSpace(s), " ") && splitOK(cutAfter(trimSpace(s), " ")) ==> result1 == nil && result0.Mode == modeOf(cutBefore(trimSpace(s), " ")) && result0.Host == splitHost(cutAfter(trimSpace(s), " ")) && result0.Port == splitPort(cutAfter(trimSpace(s), " "))
+//@ ensures result1 != nil ==> result0.Mode == 0
+
+// The first entry of a result string, as spec functions of the string.
+//@ define firstSpec(s string) string = trimSpace(cutBefore(s, ";"))
+//@ define firstDirect(s string) bool = s == "" || firstSpec(s) == "" || firstSpec(s) == "DIRECT"
+//@ define firstOK(s string) bool = cutFound(firstSpec(s), " ") && splitOK(cutAfter(firstSpec(s), " "))
+//@ define firstMode(s string) int = modeOf(cutBefore(firstSpec(s), " "))
+//@ define firstHostPort(s string) string = joinHP(splitHost(cutAfter(firstSpec(s), " ")), splitPort(cutAfter(firstSpec(s), " ")))
+
+// First: the empty result is direct; otherwise the entry before the first ';'.
+//@ func (Proxies).First
+//@ property C05 C14
+//@ pure
+//@ ensures s == "" ==> result1 == nil && result0.Mode == 0
+//@ ensures s != "" && trimSpace(cutBefore(s, ";")) != "" && trimSpace(cutBefore(s, ";")) != "DIRECT" && cutFound(trimSpace(cutBefore(s, ";")), " ") && splitOK(cutAfter(trimSpace(cutBefore(s, ";")), " ")) ==> result1 == nil && result0.Mode == modeOf(cutBefore(trimSpace(cutBefore(s, ";")), " ")) && result0.Host == splitHost(cutAfter(trimSpace(cutBefore(s, ";")), " ")) && result0.Port == splitPort(cutAfter(trimSpace(cutBefore(s, ";")), " "))
+//@ ensures s != "" && (trimSpace(cutBefore(s, ";")) == "" || trimSpace(cutBefore(s, ";")) == "DIRECT") ==> result1 == nil && result0.Mode == 0
+//@ ensures s != "" && trimSpace(cutBefore(s, ";")) != "" && trimSpace(cutBefore(s, ";")) != "DIRECT" && !(cutFound(trimSpace(cutBefore(s, ";")), " ") && splitOK(cutAfter(trimSpace(cutBefore(s, ";")), " "))) ==> result1 != nil
+//@ ensures result1 != nil ==> result0.Mode == 0
+
+// URL: nil for DIRECT; PROXY and HTTP give an http proxy URL, the other modes
+// their own lower-case scheme; the host is host:port as parsed.
+//@ func (Proxy).URL
+//@ property C05 C14
+//@ pure
+//@ ensures p.Mode == 0 ==> result == nil
+//@ ensures p.Mode != 0 ==> result != nil && fresh(result) && result.Host == joinHP(p.Host, p.Port) && result.User == nil
+//@ ensures p.Mode == 1 || p.Mode == 2 ==> result.Scheme == "http"
+//@ ensures p.Mode == 3 ==> result.Scheme == "https"
+//@ ensures p.Mode == 6 ==> result.Scheme == "socks5"
+//@ ensures p.Mode == 4 ==> result.Scheme == "socks"
+//@ ensures p.Mode == 5 ==> result.Scheme == "socks4"
